@@ -1,6 +1,7 @@
 package props
 
 import (
+	"math"
 	"bytes"
 	"fmt"
 	"image"
@@ -59,6 +60,26 @@ func genC06(t *rapid.T) *c06Case {
 		c.Opts.TargetSize, c.Opts.TargetPSNRBits = 0, 0
 		if c.Opts.Pass > 3 {
 			c.Opts.Pass = 3
+		}
+	}
+	if v := rapid.IntRange(0, 59).Draw(t, "medium"); v >= 20 && v <= 23 {
+		// 100..440 macroblocks with a rate-control target: several passes over a picture large enough for
+		// the encoder's mid-frame probability refreshes, with flat bars so that runs of skipped
+		// macroblocks fall before or after a refresh point
+		c.Img.W = rapid.IntRange(160, 336).Draw(t, "medW")
+		c.Img.H = rapid.IntRange(160, 336).Draw(t, "medH")
+		c.Img.Content = rapid.SampledFrom([]string{"letterbox", "letterbox", "letterbox", "photo", "bands", "regions", "sparse"}).Draw(t, "medContent")
+		c.Img.Kind, c.Img.Place, c.Img.OX, c.Img.OY = "nrgba", "tight", 0, 0
+		c.Img.Pix = gen.RenderContent(c.Img.W, c.Img.H, c.Img.Content, c.Img.Alpha, c.Img.Garbage)
+		if rapid.IntRange(0, 3).Draw(t, "medTarget") > 0 {
+			if rapid.Bool().Draw(t, "medSize") {
+				c.Opts.TargetSize = rapid.IntRange(600, 30000).Draw(t, "medTargetSize")
+				c.Opts.TargetPSNRBits = 0
+			} else {
+				c.Opts.TargetSize = 0
+				c.Opts.TargetPSNRBits = math.Float32bits(float32(rapid.IntRange(25, 48).Draw(t, "medPSNR")))
+			}
+			c.Opts.Pass = rapid.IntRange(2, 6).Draw(t, "medPass")
 		}
 	}
 	return c
